@@ -64,6 +64,13 @@ class Outcome:
         self.notes = []
 
 
+def _region_text(text, meta, reg):
+    for r in meta['regions']:
+        if r['id'] == reg:
+            return '\n'.join(text.split('\n')[r['start'] - 1:r['end']])
+    return ''
+
+
 def run_verus_unit(prop, unit, workdir, out, tier, known):
     tpl = os.path.join(VERIF, 'units', 'verus', unit + '.rs')
     degraded = []
@@ -92,6 +99,26 @@ def run_verus_unit(prop, unit, workdir, out, tier, known):
             out.undecided.append('%s: unlisted assumption %s at assembled line %d' % (unit, item, ln))
         out.trusted.add('verus %s [%s]: %s' % (k, unit, name))
     res = verus_run.run_verus(path, meta, workdir, rlimit=UNIT_RLIMIT.get(unit))
+    if res['status'] == 'undecided' and res.get('compile_errors'):
+        # the changed /repo may call helper functions the unit does not know: extract them (no contract) and try once more
+        missing = []
+        for ce in res['compile_errors']:
+            m1 = re.search(r'cannot find function `(\w+)` in this scope', ce['message'])
+            m2 = re.search(r'no (?:method|function or associated item|associated function or constant|associated item) named `(\w+)` found for (?:struct|enum|mutable reference|reference) `&?(?:mut )?(\w+)', ce['message'])
+            if m1 and (None, m1.group(1)) not in missing:
+                missing.append((None, m1.group(1)))
+            if m2 and (m2.group(2), m2.group(1)) not in missing:
+                missing.append((m2.group(2), m2.group(1)))
+        if missing:
+            try:
+                text2, meta2 = assemble.assemble(tpl, REPO, lenient=bool(degraded), auto=missing)
+                if meta2.get('auto_included'):
+                    open(path, 'w').write(text2)
+                    text, meta = text2, meta2
+                    out.notes.append('%s: helper functions found in /repo and extracted without contract: %s' % (unit, ', '.join(meta2['auto_included'])))
+                    res = verus_run.run_verus(path, meta, workdir, rlimit=UNIT_RLIMIT.get(unit))
+            except (assemble.LostAnchor, assemble.TemplateError):
+                pass
     if res['status'] == 'undecided' and res.get('undecided') and not res.get('compile_errors'):
         # resource limit hit (typically while searching for a proof of a FAILING obligation): one retry with 4x the budget
         out.notes.append('%s: rlimit exceeded with default budget, retried with --rlimit 40' % unit)
@@ -160,6 +187,10 @@ def run_verus_unit(prop, unit, workdir, out, tier, known):
                 continue
         elif reg not in serving:
             out.notes.append('failure in %s/%s not mapped to %s: %s' % (unit, reg, prop, fl['message']))
+            continue
+        unc = [h for h in meta.get('auto_uncontracted', []) if re.search(r'\b' + re.escape(h) + r'\s*\(', _region_text(text, meta, reg))]
+        if unc:
+            out.undecided.append('%s: %s calls helper(s) %s that are new in /repo and have no contract: cannot decide (%s)' % (unit, reg, unc, fl['message']))
             continue
         clause = re.sub(r'\s+', ' ', fl['clause'])[:160]
         name = '%s/%s/%s [%s]' % (unit, reg, fl['message'], clause)
